@@ -424,7 +424,7 @@ FBChoices(hot, cold) ==
 \* ---- family "store": the first hot host is a REAL store (storeapi.GrpcV1.doSearch); its search behaviour
 \* is not scripted but follows from its state.  Times are abstract: the driver maps t to
 \* (creation time of the store's oldest fraction) + (t - OldestCT) seconds.
-NoStore == [mode |-> "fake", mature |-> FALSE, oct |-> 0, from |-> 0]
+NoStore == [mode |-> "fake", mature |-> FALSE, oct |-> 0, from |-> 0, hist |-> "fresh"]
 StoreOCT == 5
 StoreData == {<<8, 1>>, <<9, 1>>, <<10, 1>>}
 \* storeapi/grpc_search.go doSearch + earlierThanOldestFrac: a hot store, once mature (it has rotated data
@@ -433,7 +433,12 @@ StoreRefuses(st) == st.mode = "hot" /\ st.mature /\ (st.oct = 0 \/ st.oct > st.f
 StoreChoices == IF Family = "store"
                   \* oct = 0: the store was loaded but its maintenance loop has not finished its first pass yet
                   \* (FracManager.OldestCT is only computed there): a mature hot store then refuses every range
-                  THEN [mode : {"hot", "cold"}, mature : BOOLEAN, oct : {0, StoreOCT}, from : {3, 5, 7}]
+                  THEN [mode : {"hot", "cold"}, mature : BOOLEAN, oct : {0, StoreOCT}, from : {3, 5, 7}, hist : {"fresh"}]
+                       \* hist = "truncated": the store once held an older fraction (created at abstract time 2) that the
+                       \* retention pass which established OldestCT removed. OldestCT is the creation time of the oldest
+                       \* REMAINING fraction, so the answer is the same as for a store that never held it; a store that
+                       \* truncates is mature by that very step (fracmanager.shrinkSizes: setMature)
+                       \cup [mode : {"hot"}, mature : {TRUE}, oct : {0, StoreOCT}, from : {3, 5, 7}, hist : {"truncated"}]
                   ELSE {NoStore}
 
 \* ---- seeded random scenarios (family "rand", tlc -simulate)
